@@ -128,6 +128,8 @@ func (*compiler).VisitBinaryExpr#3 [C01]
 // primitiveAnyCast, the closure of VisitCastExpr that unpacks a Variable: the run-time error is reached exactly when the
 // block was reached and the type comparison is false; code after the conversion runs only when it was true
 func (*compiler).VisitCastExpr$2 [C06]
+  // (VisitCastExpr itself keeps executing the closure's body: its own proofs need more than this contract says)
+  inline
   requires c != nil && c.cbb != nil && c.cf != nil && e != nil
   at LV before call createIfElse
   ensures reached(LV)
